@@ -1,9 +1,11 @@
 import ConfModel.Driver.Common
 import ConfModel.Model.Assert
+import ConfModel.Model.AssertPath
+import ConfModel.Model.AssertSeq
 import ConfModel.Spec.Agree
 import ConfModel.Generated.C03Facts
 namespace ConfModel.Driver.C03
-open Lean ConfModel.Driver ConfModel.Assert ConfModel.Agree
+open Lean ConfModel.Driver ConfModel.Assert ConfModel.Agree ConfModel.AssertPath
 
 def grace : Int := ConfModel.Generated.C03Facts.grace
 
@@ -56,6 +58,93 @@ def render : Discrepancy → String
 /-- a value the leniency "joined or split on commas" speaks of: no comma, no space at either end -/
 def cleanVal (v : Val) : Bool := !v.contains ',' && v.head? != some ' ' && v.getLast? != some ' '
 
+/-- the rendering of a model verdict as the harness names it -/
+def verdictStr : AssertPath.Verdict → String
+  | .setup => "setup" | .clientFailed _ => "clientError" | .asserted _ => "asserted" | .neither => "neither"
+
+def verdictErrs : AssertPath.Verdict → List String
+  | .asserted ds => ds.map render
+  | _ => []
+
+def pFlags (j : Json) : Flags :=
+  { logEach := bool (field j "v"), tracing := bool (field j "t"), refClient := bool (field j "rc"), refServer := bool (field j "rs") }
+
+def flagsStr (f : Flags) : String :=
+  (if f.logEach then "v" else "-") ++ (if f.tracing then "t" else "-") ++
+  (if f.refClient then "c" else "-") ++ (if f.refServer then "s" else "-")
+
+def countLog (l : LogLine) (ls : List LogLine) : Nat := (ls.filter (· == l)).length
+
+/-- one run of op "path": (agrees with `deliver`, why-not-holds) -/
+def judgeRun (st : StreamType) (other : List Nat) (e : Result) (reply : Reply) (direct : Option (List String))
+    (wf agrees : Bool) (expect mutn : String) (f : Flags) (run : Json) : Bool × String :=
+  let d := deliver f grace st other e reply
+  let iv := str (field run "verdict")
+  let ie := strList (field run "errs")
+  let isb : Option String := if bool (field run "hasSideband") then some (str (field run "sideband")) else none
+  let agree := iv == verdictStr d.verdict && ie == verdictErrs d.verdict &&
+    nat (field run "sending") == countLog .sending d.log && nat (field run "received") == countLog .received d.log &&
+    nat (field run "otherLog") == 0 && isb == d.sideband
+  let at_ := " [flags " ++ flagsStr f ++ "]"
+  let passed := iv == "asserted" && ie.isEmpty
+  let why :=
+    if bool (field run "hang") then "hang: runTestCasesForServer did not return" ++ at_
+    else if !bool (field run "recorded") then "unrecorded: no outcome was recorded for the case" ++ at_
+    else if bool (field run "mutated") then "mutated: the client's reply object was changed on the way to assert (" ++ mutn ++ ")" ++ at_
+    else if bool (field run "spareTouched") then "mutated: the spare capacity of a repeated field of the client's reply was written (" ++ mutn ++ ")" ++ at_
+    else if bool (field run "defMutated") then "mutated: the test case definition was changed (" ++ mutn ++ ")" ++ at_
+    else match reply, direct with
+    | .response _ _, some dErrs =>
+      if iv != "asserted" then "not-asserted: a reported result was recorded as " ++ iv ++ at_
+      else if ie != dErrs then "path: the discrepancies recorded through runTestCasesForServer " ++ toString ie ++
+        " are not those assert gives on the reported result " ++ toString dErrs ++ " (" ++ mutn ++ ")" ++ at_
+      else if wf && passed && !agrees then "missed: the results do not agree (" ++ mutn ++ ") but the case passed" ++ at_
+      else if wf && !passed && agrees then "spurious: the results agree up to the documented leniencies (" ++ mutn ++ ") but " ++ toString ie ++ " was recorded" ++ at_
+      else if !(expect.isEmpty || ie.contains expect) then "unnamed: deviation " ++ mutn ++ " must be named as " ++ expect ++ " but the record is " ++ toString ie ++ at_
+      else ""
+    | _, _ => if passed then "passed-without-result: a reply without a reported result was recorded as passed" ++ at_ else ""
+  (agree, why)
+
+/-! #### op "seqassert" -/
+
+structure SeqPair where
+  st : StreamType
+  other : List Nat
+  e : Result
+  a : Result
+  expect : String
+  mutn : String
+  deriving Inhabited
+
+def pSeqPair (j : Json) : SeqPair :=
+  { st := pStream (nat (field j "st")), other := natList (field j "other"), e := pResult (field j "exp"),
+    a := pResult (field j "act"), expect := str (field j "expect"), mutn := str (field j "mut") }
+
+def pSeqCall (pairs : Array SeqPair) (j : Json) : AssertSeq.Call :=
+  let ns := strList (field j "ns")
+  let n := ns.headD ""
+  match str (field j "k") with
+  | "assert" => let p := pairs[nat (field j "pair")]!; .assert n p.st p.other p.e p.a
+  | "failed" => .failed n
+  | "neither" => .neither n
+  | "setup" => .setup n
+  | "start" => .start ns
+  | "remaining" => .remaining ns
+  | _ => .sideband n (str (field j "msg"))
+
+def failKind : Option AssertSeq.Fail → String × List String
+  | none => ("none", [])
+  | some (.discrepancies ds) => ("discrepancies", ds.map render)
+  | some .client => ("client", []) | some .neither => ("neither", []) | some .setup => ("setup", [])
+  | some .start => ("start", []) | some .noResult => ("noResult", []) | some (.sideband _) => ("sideband", [])
+
+/-- the index (in `pairs`) of the pair of the last call that stores an outcome for `n`, when that
+call is an `assert` -/
+def lastAssertPair (n : String) (calls : List (AssertSeq.Call × Json)) : Option Nat :=
+  match (calls.reverse.find? fun (c, _) => c.writes n) with
+  | some (.assert _ _ _ _ _, j) => some (nat (field j "pair"))
+  | _ => none
+
 def handle : Handler := fun op inp impl =>
   if !(isNull (field impl "panic")) then
     { agree := false, holds := false, why := "panic: " ++ str (field impl "panic") } else
@@ -87,6 +176,92 @@ def handle : Handler := fun op inp impl =>
       else ""
     { agree := agree, holds := why.isEmpty, nontrivial := mutn != "identical", model := model, why := why,
       cls := (if agrees then "agree:" else "deviate:") ++ kind }
+  | "path" =>
+    let st := pStream (nat (field inp "st"))
+    let other := natList (field inp "other")
+    let e := pResult (field inp "exp")
+    let a := pResult (field inp "act")
+    let expect := str (field inp "expect")
+    let mutn := str (field inp "mut")
+    let kindR := str (field inp "reply")
+    let reply : Reply := match kindR with
+      | "response" => .response a (strList (field inp "fb"))
+      | "error" => .clientError "client says no"
+      | "neither" => .neither
+      | "noresult" => .noResult
+      | _ => .transport
+    let isResp := kindR == "response"
+    let direct : Option (List String) :=
+      if isNull (field impl "direct") then none else some (strList (field (field impl "direct") "errs"))
+    let mDirect := (assert grace st other e a).map render
+    let wf := isResp && decide (WellFormed e a)
+    let agrees := isResp && wf && decide (Agree grace st other e a)
+    let flags := (arr (field inp "runs")).map pFlags
+    let runs := arr (field impl "runs")
+    let judged := (flags.zip runs).map fun (f, run) => judgeRun st other e reply direct wf agrees expect mutn f run
+    let agree := runs.length == flags.length && judged.all (·.1) &&
+      (if isResp then direct == some mDirect else direct.isNone)
+    let whys := judged.filterMap fun (_, w) => if w.isEmpty then none else some w
+    let why :=
+      if runs.length != flags.length then "runs: " ++ toString runs.length ++ " runs reported for " ++ toString flags.length ++ " settings"
+      else if isResp && direct.isNone then "direct: assert recorded nothing for the reported result"
+      else whys.headD ""
+    let kind := ((mutn.splitOn ":").getLast?.getD mutn).takeWhile (fun c => c != '@' && c != '=') |>.toString
+    { agree := agree, holds := why.isEmpty, nontrivial := flags.any (·.logEach) && mutn != "identical",
+      model := Json.mkObj [("direct", toJson mDirect), ("verdict", toJson (verdictStr (deliver default grace st other e reply).verdict))],
+      why := why,
+      cls := "path:" ++ (if !isResp then kindR else if !wf then "not-well-formed" else if agrees then "agree:" ++ kind else "deviate:" ++ kind) }
+  | "seqassert" =>
+    let pool := strList (field inp "pool")
+    let pairs := ((arr (field inp "pairs")).map pSeqPair).toArray
+    let callsJ := arr (field inp "calls")
+    let calls := callsJ.map (pSeqCall pairs)
+    let total := nat (field inp "total")
+    let s := AssertSeq.run grace calls
+    -- the implementation's observations
+    let iOut := (arr (field impl "outcomes")).map fun o =>
+      (str (field o "n"), bool (field o "setup"), str (field o "kind"), strList (field o "errs"))
+    let iListed := strList (field impl "listed")
+    let iGet (n : String) := iOut.find? (·.1 == n)
+    -- the model's
+    let mOut := pool.filterMap fun n => (AssertSeq.get s.outcomes n).map fun o =>
+      let (k, es) := failKind o.failure; (n, o.setupError, k, es)
+    let mListed := pool.filter (AssertSeq.listedFailed s)
+    let mCount := (pool.filter (AssertSeq.hasOutcome s)).length
+    let mNotRun := total - mCount
+    let agree := iOut == mOut && iListed == mListed && nat (field impl "total") == mCount &&
+      nat (field impl "failed") == mListed.length && nat (field impl "passed") == mCount - mListed.length &&
+      nat (field impl "notRun") == mNotRun && bool (field impl "ok") == (mListed.isEmpty && mNotRun == 0) &&
+      nat (field impl "otherLines") == 0
+    -- the property on the implementation's output: a name whose last stored outcome is a comparison
+    -- shows the verdict of THAT comparison
+    let whys := pool.filterMap fun n =>
+      match lastAssertPair n (calls.zip callsJ) with
+      | none => none
+      | some k =>
+        let p := pairs[k]!
+        let sb := calls.any (·.isSidebandFor n)
+        let at_ := " [name " ++ n ++ ", pair " ++ toString k ++ " " ++ p.mutn ++ "]"
+        match iGet n with
+        | none => some ("unpublished: no outcome is stored for a name that was compared" ++ at_)
+        | some (_, setup, kind, errs) =>
+          let passed := kind == "none"
+          let listed := iListed.contains n
+          if setup then some ("stale: the outcome of the name is a setup error although its last call was a comparison" ++ at_)
+          else if !(kind == "none" || kind == "discrepancies") then some ("stale: the outcome of the name is " ++ kind ++ " although its last call was a comparison" ++ at_)
+          else if !sb && listed != !passed then some ("report: FAILED listing (" ++ toString listed ++ ") does not show the stored verdict" ++ at_)
+          else if !decide (WellFormed p.e p.a) then none
+          else
+            let agrees := decide (Agree grace p.st p.other p.e p.a)
+            if passed && !agrees then some ("missed: the last reported result does not agree but the name passed" ++ at_)
+            else if !passed && agrees then some ("spurious: the last reported result agrees up to the documented leniencies but " ++ toString errs ++ " is published" ++ at_)
+            else if !(p.expect.isEmpty || errs.contains p.expect) then some ("unnamed: the deviation of the last comparison must be named as " ++ p.expect ++ " but " ++ toString errs ++ " is published" ++ at_)
+            else none
+    let why := whys.headD ""
+    let repeated := pool.any fun n => (calls.filter (·.writes n)).length > 1
+    { agree := agree, holds := why.isEmpty, nontrivial := repeated,
+      model := Json.mkObj [("listed", toJson mListed), ("outcomes", toJson (mOut.map fun (n, su, k, es) => Json.mkObj [("n", toJson n), ("setup", toJson su), ("kind", toJson k), ("errs", toJson es)]))],
+      why := why, cls := if repeated then "seq:repeated-name" else "seq:unique-names" }
   | "canon" =>
     let vals := (strList (field inp "vals")).map String.toList
     let ic := (strList (field impl "canon")).map String.toList
